@@ -268,6 +268,9 @@ func c05Programs(r *findings.Run) (progs []*Prog, names []string) {
 	// --- C03 fragment: slice histories depth 2 (3 thorough) and sweeps with two-digit indices
 	ops := c03Ops()
 	for _, el := range c03Elems {
+		if el.tag != "" {
+			continue
+		}
 		depth := 2
 		if r.Thorough() && el.t.Base == "int" {
 			depth = 3
